@@ -49,8 +49,17 @@ class System:
         # ``near``: very repeatable windows, scaled by 1 + w * step with steps of 1.9 and 2.9 ppm: the spread is a
         # small difference of large numbers, the reference is compared at a tolerance that allows for that
         # conditioning (mean/std ~ 1e6)
+        many = root.get("many")
+        if many:
+            # a fine azimuth sweep with many windows per azimuth: azimuths x accepted windows exceeds 2**16
+            nA_, W_ = many
+            pool = ["p2", "p3", "p4", "twopk", "q3"]
+            root = dict(root, shapes_by_az=[[pool[(a + w) % 5] for w in range(W_)] for a in range(nA_)],
+                        az_values=[round(a * 180.0 / nA_, 6) for a in range(nA_)])
+            self.root = root
         near = root.get("near")
-        self.csets = [A.curve_set(s, F, scale_step=(2.0 ** -19 + ai * 2.0 ** -20) if near else 0.125 + 0.0625 * ai)
+        self.csets = [A.curve_set(s, F, scale_step=(2.0 ** -19 + ai * 2.0 ** -20) if near else
+                                   (2.0 ** -6 + ai * 2.0 ** -12) if many else 0.125 + 0.0625 * ai)
                       for ai, s in enumerate(root["shapes_by_az"])]
         self.rtol = 1e-6 if near else RTOL
         if root.get("rows_by_az"):          # explicit windows instead of named shapes
@@ -58,6 +67,11 @@ class System:
         self.nA = len(self.csets)
         self.W = len(self.csets[0])
         f = self.freq
+        if many:
+            # the weights differ between azimuths only when their accepted counts differ: a few manual rejections
+            self.ops = [dict(op="M", az=0, i=1), dict(op="M", az=0, i=5), dict(op="M", az=3, i=7),
+                        dict(op="M", az=self.nA - 1, i=self.W - 1)][:root.get("many_ops", 4)]
+            return
         ops = []
         for a in range(self.nA):
             for i in range(self.W):
@@ -104,9 +118,9 @@ class System:
         # be present): every entry is an azimuth of its own and gets the weight 1 / number of entries
         vals = self.root.get("az_values")
         if az is None and vals:
-            az = list(vals)
+            az = list(vals)[:len(hs)]
         elif az is not None and vals:
-            az = [vals[AZ_VALUES.index(a)] for a in az]
+            az = [vals[a] if isinstance(a, int) else vals[AZ_VALUES.index(a)] for a in az]
         return HvsrAzimuthal(hs, az or AZ_VALUES[:len(hs)])
 
     def initial(self, root):
@@ -240,10 +254,11 @@ class System:
             trad.update_peaks_bounded(search_range_in_hz=h.rng, find_peaks_kwargs=h.kw)
             trad.valid_window_boolean_mask = np.array(masks[0][0])
             trad.valid_peak_boolean_mask = np.array(masks[0][1])
-        permuted = self._rebuilt(h, masks, list(reversed(range(self.nA)))) if self.nA > 1 else None
-        fresh = self._fresh(h, masks)
+        big = bool(self.root.get("many"))      # 65792 windows: the weights are what this root is about
+        permuted = self._rebuilt(h, masks, list(reversed(range(self.nA)))) if self.nA > 1 and not big else None
+        fresh = self._fresh(h, masks) if not big else None
         zero_in_accepted = any(v == 0.0 for r in rows for v in r)
-        for d in DISTS:
+        for d in (DISTS[:2] if big else DISTS):
             exp = {}
             exp["mean_fn_frequency"] = RS.wmean(fs, weights, d)
             exp["mean_fn_amplitude"] = RS.wmean(am, weights, d)
@@ -334,7 +349,13 @@ class System:
             # mean-curve peak of the implementation's own mean curve in the current range
             mc = got_all.get("mean_curve")
             if mc is not None and not _israised(mc):
-                c = HvsrCurve(self.freq, list(mc))
+                try:
+                    c = HvsrCurve(self.freq, list(mc))
+                except ValueError as e:     # a mean curve that is not a valid curve (nan / negative values)
+                    ctx.violation(f"C11:mean_curve:{d}:not-a-valid-curve", root, detail=dict(hist=list(hist)),
+                                  observed=str(e), explanation="mean_curve() returned values that are not a valid "
+                                                               "HVSR curve (nan, inf or negative)")
+                    continue
                 c.update_peaks_bounded(search_range_in_hz=h.rng, find_peaks_kwargs=h.kw)
                 got = _call(o, "mean_curve_peak", (), d)
                 want = ("raised", "ValueError") if math.isnan(c.peak_frequency) else \
@@ -345,7 +366,8 @@ class System:
                                   explanation="mean_curve_peak is not the peak of the mean curve in the current range")
 
     def _rebuilt(self, h, masks, order):
-        o = self._make([self.csets[a] for a in order], [AZ_VALUES[a] for a in order])
+        o = self._make([self.csets[a] for a in order],
+                       [a for a in order] if self.root.get("az_values") else [AZ_VALUES[a] for a in order])
         o.update_peaks_bounded(search_range_in_hz=h.rng, find_peaks_kwargs=h.kw)
         for t, a in zip(o.hvsrs, order):
             t.valid_window_boolean_mask = np.array(masks[a][0])
@@ -385,6 +407,8 @@ def roots(tier, seed):
     out.append(dict(grid="lin", F=7, shapes_by_az=[["p3", "dead", "p4"], ["p2", "p3", "dead"]],
                     depth=2 if tier == "quick" else 3, ops_subset="MA", reaccept=True))
     out.append(dict(grid="lin", F=7, shapes_by_az=[["p3"] * 3, ["p3"] * 3], depth=1, near=True))
+    out.append(dict(grid="lin", F=7, many=[256, 257], shapes_by_az="generated", depth=1,
+                    many_ops=1 if tier == "quick" else 4))
     out.append(dict(grid="lin", F=7, shapes_by_az=[S[3][0], S[3][1], S[3][3]], depth=2 if tier != "quick" else 1,
                     az_values=[10.0, 10.0, 55.0]))
     out.append(dict(grid="lin", F=7, shapes_by_az=[S[3][1], S[3][0]], depth=2, az_values=[0.0, 180.0]))
